@@ -19,6 +19,8 @@ pub fn units(tier: &str, _seed: u64) -> Vec<String> {
         "1/U:ACS:EAMBIENTE;1/P:EAMBIENTE",
         "-3/U:ACS:TERMOSOLAR;-3/U:ACS:GASNATURAL",
         "2/U:CAL:GASNATURAL#caldera, rend. 0.9 {HASH} dato de fabricante;2/O:CAL#salida {HASH} medida;2/X#aux {HASH} bomba;P:EL_INSITU#PV {HASH} cubierta",
+        // a building without electricity
+        "U:CAL:GASNATURAL;U:ACS:BIOMASA;D:ACS",
     ];
     let mut v = vec![];
     for s in shapes {
@@ -148,6 +150,35 @@ pub fn scenario(u: &Unit) -> String {
         }
         (Err(_), Err(_)) => {}
         _ => ob("results.same-outcome", f()),
+    }
+    // what --of followed by -f does: the simplified factor set is written, and read back through the preparation of
+    // user factor files; the building evaluated with it gives the results of the original evaluation
+    spec(false);
+    let slim_text = fp.clone().strip(&comps).to_string();
+    let f3 = cte::wfactors_from_str(&slim_text, no_user(), cte::CTE_USERWF);
+    let e1 = energy_performance(&comps, &fp, kexp, k(10.0), false);
+    spec(true);
+    match (e1, f3) {
+        (Ok(a), Ok(f3)) => {
+            spec(false);
+            let e3 = energy_performance(&c2, &f3, kexp, k(10.0), false);
+            spec(true);
+            match e3 {
+                Ok(b) => {
+                    let (la, lb) = (leaves(&a), leaves(&b));
+                    if la.len() != lb.len() || la.iter().zip(lb.iter()).any(|(x, y)| x.0 != y.0) {
+                        ob("saved.same-structure", f());
+                    } else {
+                        for ((nm, x), (_, y)) in la.iter().zip(lb.iter()) {
+                            ob_via(&format!("saved{}", nm), "same-term", x.ident(*y), if <F as Scalar>::LIFTED { y.approx(*x, 64.0, *x) } else { t() });
+                        }
+                    }
+                }
+                Err(_) => ob("saved-files-evaluate", f()),
+            }
+        }
+        (Ok(_), Err(_)) => ob("saved-factors-are-usable", f()),
+        _ => {}
     }
     "ok".into()
 }
